@@ -34,6 +34,9 @@ type c27stall struct {
 type c27case struct {
 	Stalls []c27stall `json:"stalls,omitempty"`
 	Crowd  bool       `json:"crowd,omitempty"`
+	// a signal sent by a shell to an (outdated) daemon takes effect this much
+	// later: the daemon is stopped, swapped out or busy
+	SigDelayUS int64 `json:"signal_takes_effect_after_us,omitempty"`
 	Initial    string     `json:"initial"` // absent | stale | live | outdated
 	Holders    int        `json:"initial_clients,omitempty"`
 	HolderUS   int64      `json:"initial_clients_leave_after_us,omitempty"`
@@ -122,6 +125,10 @@ func runC27(c *Ctx) {
 		}
 	}
 
+	if cs.Initial == "outdated" && f.Chance(1, 2) {
+		cs.SigDelayUS = []int64{200001, 900001, 1200001, 2500001}[f.Draw(4)]
+	}
+
 	dir := storeTempDir()
 	defer os.RemoveAll(dir)
 	sock, db, rundir := filepath.Join(dir, "sock"), filepath.Join(dir, "db"), filepath.Join(dir, "run")
@@ -166,6 +173,18 @@ func runC27(c *Ctx) {
 			}
 			signalled[pid] = true
 			rec("signalled", pid, 1, "by a shell (kill of an outdated daemon)")
+			if cs.SigDelayUS > 0 {
+				c.Fault("signal-takes-effect-late")
+				go func() {
+					simrt.SetProcess(pid)
+					time.Sleep(time.Duration(cs.SigDelayUS) * time.Microsecond)
+					select {
+					case ch <- sig:
+					default:
+					}
+				}()
+				return nil
+			}
 			select {
 			case ch <- sig:
 			default:
@@ -353,12 +372,17 @@ func checkC27(c *Ctx, cs *c27case, s *simrt.Sim, evs []c27ev, sock string, signa
 	// Daemon serving intervals: [listen, first own removal of the path or serve-exit).
 	daemons := map[int]*dstate{}
 	var order []*dstate
-	var shellRemovals []simrt.NetEvent // a shell removed a socket of a live listener
+	var shellRemovals []simrt.NetEvent // a shell removed a socket of a live listener, in stale-socket recovery
+	var otherRemovals []simrt.NetEvent // ... in any other situation
+	lastDial := map[int]simrt.NetEvent{}
 	for _, e := range net {
 		if e.Path != sock && e.Kind != "signal" {
 			continue
 		}
 		lines = append(lines, tl{e.Step, fmt.Sprintf("proc %d %s gen=%d %s", e.Proc, e.Kind, e.Gen, e.Err)})
+		if strings.HasPrefix(e.Kind, "dial-") {
+			lastDial[e.Proc] = e
+		}
 		switch e.Kind {
 		case "listen":
 			d := &dstate{pid: e.Proc, gen: e.Gen, listenStep: e.Step, endStep: -1}
@@ -375,7 +399,15 @@ func checkC27(c *Ctx, cs *c27case, s *simrt.Sim, evs []c27ev, sock string, signa
 				}
 			}
 			if isShell(e.Proc) && s.ListenerAlive(e.Gen) || isShell(e.Proc) && listenerWasAliveAt(order, e.Gen, e.Step) {
-				shellRemovals = append(shellRemovals, e)
+				// The known check-then-remove race: the shell found a socket
+				// that refused connections (a dead generation) and then removed
+				// the path, which by then belonged to a live daemon. Any other
+				// removal of a live daemon's socket by a shell is not that race.
+				if d, ok := lastDial[e.Proc]; ok && d.Kind == "dial-refused" && d.Gen != e.Gen {
+					shellRemovals = append(shellRemovals, e)
+				} else {
+					otherRemovals = append(otherRemovals, e)
+				}
 			}
 		}
 	}
@@ -393,6 +425,10 @@ func checkC27(c *Ctx, cs *c27case, s *simrt.Sim, evs []c27ev, sock string, signa
 	}
 	if len(cs.Timeline) > 120 {
 		cs.Timeline = cs.Timeline[:120]
+	}
+	for _, e := range otherRemovals {
+		d := lastDial[e.Proc]
+		c.Violation("live-socket-removed", "shell %d removed the socket file of a LIVE daemon (generation %d) at step %d although its last connection attempt (%s, generation %d) had not found a dead socket: the daemon is now unreachable, or a second daemon will serve beside it", e.Proc, e.Gen, e.Step, d.Kind, d.Gen)
 	}
 	if len(shellRemovals) > 0 {
 		c.Probe("shell-removed-a-live-socket")
